@@ -19,6 +19,45 @@ CHECKS = {
         "Trusted: Lean kernel; axioms propext/Classical.choice/Quot.sound; hand-written model of Block1014 (validated by the "
         "correspondence, sampled outside the enumerated sub-space); underlying file object appends (BytesIO).",
         "DESIGN.md §8 C04"),
+    'C05': (
+        "Lean 4 theorems (refinement of Unblock1014.read to take/drop on the payload stream, for all read histories; simulation for record reading) + behavioural correspondence",
+        "Machine-checked proof over an executable model: for every file content and every history of sized / unsized reads, "
+        "the unblocker returns the successive slices of the payload stream (Props/C05.lean C05_reads), record reading "
+        "through the unblocker equals record reading of the payload stream (C05_records, by simulation), and the one-shot "
+        "unblocker succeeds exactly on well-blocked input, inverting the blocker up to fill (C05_unblock_*). Tied to /repo by "
+        "differential execution over every delivered-residue x next-size pair (boundary set quick, all sizes thorough), "
+        "no-size reads, truncated files and every trailer corruption, plus an independent oracle.",
+        "Trusted: Lean kernel; standard axioms; hand-written model of Unblock1014.read/unblock_1014 validated by the "
+        "correspondence; the wrapped file returns full 1014-byte reads until EOF.",
+        "DESIGN.md §8 C05"),
+    'C03': (
+        "Lean 4 theorems (byte-exact layout of writer output; read(write(recs)) = recs by induction over the record list, blocked case through the C04/C05 theorems) + behavioural correspondence",
+        "Machine-checked proof over executable models of VbsWriter, VbsReader, Block1014, Unblock1014 and the file object: "
+        "for every list of non-empty records up to the maximum length, the unblocked file is exactly (be32 length ++ record)* "
+        "++ 00000000, the blocked file is well-blocked with that stream as payload, and reading returns exactly the records "
+        "(Props/C03.lean). Tied to /repo by differential execution on all 6000 single-record lengths x both formats, "
+        "boundary multi-record files, special contents and random lists through class API, write_many/with, and the "
+        "list/bytes convenience functions, with an independent layout oracle.",
+        "Trusted: Lean kernel; standard axioms; hand-written models validated by the correspondence; struct.pack('>I') as 4 "
+        "base-256 digits (< 2^32); MAX_VBS_RECORD_LENGTH re-translated from /repo each run.",
+        "DESIGN.md §8 C03"),
+    'C09': (
+        "Lean 4 theorems (for every cut offset n, reading file.take n yields recs.take j with j characterised by the surviving payload, ending eof or library error) + behavioural correspondence over every cut of each generated file",
+        "Machine-checked proof: for every record list and EVERY truncation offset (unbounded), unblocked and blocked, the "
+        "reader yields exactly the records wholly contained in the surviving bytes and then ends or raises the library error "
+        "with the number of the incomplete record (Props/C09.lean; blocked case via payloads(take n) = take (surv n) payloads). "
+        "Tied to /repo by running VbsReader on every cut offset of each generated file against the model and an "
+        "independent count of whole records.",
+        "Trusted: as C03.",
+        "DESIGN.md §8 C09"),
+    'C11': (
+        "Lean 4 theorems (any non-empty finalisation history = one close, by induction over the history; read-back via C03) + behavioural correspondence over all histories up to length 4/6 on BytesIO and real files",
+        "Machine-checked proof over the writer model with file-position semantics: every non-empty sequence of close()/exit "
+        "leaves the writer state of a single close (Props/C11.lean), hence the file reads back as the records written. The "
+        "model's finalised flag mirrors the implementation's; the tie is differential execution of every finalisation string "
+        "x record sets x {VbsWriter, IpmWriter} x {VBS, 1014} on BytesIO and real files, plus a read-back oracle.",
+        "Trusted: as C03; real-file glue (open/flush) is exercised, not modelled.",
+        "DESIGN.md §8 C11"),
 }
 
 
